@@ -294,4 +294,32 @@ def noOverlapPairs (w : String) : List (String × Bool) → List Fml
       rest.map (fun (tk, mk) => Fml.or [.ge (bS w tk mk) (bE w ti mi), .ge (bS w ti mi) (bE w tk mk)])
       ++ noOverlapPairs w rest
 
+/-- `buffer._unloading_tasks` / `_loading_tasks` and the access order, from the constraint list -/
+def State.bufUnloading (st : State) (b : String) : List (String × Int) :=
+  st.constrs.foldl (fun acc c => match c.body with
+    | .unloadBuffer t b' q => if b' == b then dictSet acc t.name q else acc
+    | _ => acc) []
+
+def State.bufLoading (st : State) (b : String) : List (String × Int) :=
+  st.constrs.foldl (fun acc c => match c.body with
+    | .loadBuffer t b' q => if b' == b then dictSet acc t.name q else acc
+    | _ => acc) []
+
+/-- tasks in the order of `_level_changes_time` / `_buffer_levels[1:]` -/
+def State.bufAccesses (st : State) (b : String) : List String :=
+  st.constrs.filterMap (fun c => match c.body with
+    | .unloadBuffer t b' _ => if b' == b then some t.name else none
+    | .loadBuffer t b' _ => if b' == b then some t.name else none
+    | _ => none)
+
+def Buffer.levelVars (b : Buffer) (accesses : List String) : List Term :=
+  Term.var (.bufInit b.name) :: accesses.map (fun t => Term.var (.bufLevel b.name t))
+
+def Buffer.timeVars (b : Buffer) (accesses : List String) : List Term :=
+  accesses.map (fun t => Term.var (.bufTime b.name t))
+
+
+/-- `buffer._buffer_levels` at this point of the script -/
+def bufLevelVars (st : State) (b : Buffer) : List Term := b.levelVars (st.bufAccesses b.name)
+
 end PS
